@@ -662,7 +662,7 @@ Qed.
 Theorem step_both st e st' : Both st -> step st e = ROk st' -> Both st'.
 Proof.
   intros [HS H] E. split; [eapply step_sinv; eassumption|]. revert E.
-  destruct e as [c adm|c b totals|order|s b|c|s| |s|nodes newslots|ch]; cbn [step].
+  destruct e as [c adm|c b totals|order|s b|c|s| |s|nodes newslots|ch|da dd]; cbn [step].
   - destruct (lookup c (clients st)); intro E; apply ROk_inj in E; subst st'; exact H.
   - intro E; apply ROk_inj in E; subst st'. apply ensure_dials_both. unfold client_data.
     destruct (lookup c (clients st)) as [cl|]; [|split; assumption].
@@ -680,6 +680,7 @@ Proof.
     apply (NInv_keep st); [apply pext_same_s, same_s_expire | apply dmono_expire | exact H].
   - destruct (find_pool st s) as [p|]; [|intro E; apply ROk_inj in E; subst st'; exact H].
     destruct (pool_get st p) as [st1 [s1|]] eqn:Eg; pose proof (pool_get_ninv _ _ _ _ HS H Eg) as A; intro E; apply ROk_inj in E; subst st'; exact A.
+  - intro E; apply ROk_inj in E; subst st'. apply (NInv_keep st); [apply pext_servers; reflexivity | apply dmono_msgs; reflexivity | exact H].
   - intro E; apply ROk_inj in E; subst st'. apply (NInv_keep st); [apply pext_servers; reflexivity | apply dmono_msgs; reflexivity | exact H].
   - intro E; apply ROk_inj in E; subst st'. apply (NInv_keep st); [apply pext_servers; reflexivity | apply dmono_msgs; reflexivity | exact H].
 Qed.
